@@ -61,7 +61,8 @@ def mkState (seed : Nat) : MState :=
     written := fun _ => false,
     mem := fun a => mix a seed % 256,
     locals := [],
-    imm := fun l => pickVal (mix (strNat l) (seed * 3 + 5)),
+    -- immediates are shift amounts / small offsets in most behaviours: half of the samples are small
+    imm := fun l => let h := mix (strNat l) (seed * 3 + 5); if h % 2 == 0 then (h / 2) % 41 else pickVal h,
     pktAddr := pickVal (mix 4242 seed) % 4294967296,
     params := [] }
 
